@@ -82,6 +82,16 @@ def spectral_leaves():
     L["E_spd241"] = eig_leaf([[1, 1, 0], [-1, 1, 0], [0, 0, 1]], [2, 4, 1], "f64", "spd241")
     L["E_gen124"] = eig_leaf([[1, 1, 0], [0, 1, 1], [0, 0, 1]], [1, 2, 4], "f64", "gen124")     # non-symmetric
     L["E_cgen"] = eig_leaf([[1, 1], [0, 1]], [2 + 1j, 1 + 2j], "c128", "cgen")                  # complex general
+    L["E_indneg"] = eig_leaf(V2, [-3, 1], "f64", "indneg")                   # dominant eigenvalue negative
+    tl = eig_leaf([[1, 0], [-1, 1]], [2, 5], "f64", "tril25")                # lower triangular [[2,0],[3,5]]
+    tl["k"] = "Triangular"
+    tl["p"]["lower"] = True
+    L["T_low25"] = tl
+    tu = eig_leaf([[1, 1, 0], [0, 1, 2], [0, 0, 1]], [1, 3, -2], "f64", "triu")   # upper triangular, unsorted diagonal
+    tu["k"] = "Triangular"
+    tu["p"]["lower"] = False
+    L["T_up"] = tu
+    L["G_dgneg"] = catalog.diag([2, -5, 1], "f64")
     L["G_dg14"] = catalog.diag([4, 1], "f64")
     L["G_dg419"] = catalog.diag([4, 1, 9], "f64")
     L["G_dgn"] = catalog.diag([-2, 3], "f64")
